@@ -82,4 +82,43 @@ fn append_addresses(block: BlockId, blob_offset: usize, indices: Vec<BlobEntryIn
     proof { assert(indices@.subrange(0, indices@.len() as int) == indices@); }
 //@end
 
+
+// ---- Runner::handle_io_complete: what happens once the io task of a batch (block writes + index insert_batch +
+// tombstone log append) has finished, and only then (C01: the write-queue references are released after the disk index
+// was updated; the index placeholders of the batch's flushed tombstones are removed here, under their own sequence,
+// i.e. not while writes of the same batch may still be inserted into the index; then the waiters are answered)
+pub struct TombT { pub hash: u64, pub sequence: Sequence }
+pub struct TombstoneInfo { pub tombstone: TombT }
+pub enum Done { ReleasedWriteQueueRefs(nat), RemovedTombstones(Seq<(u64, Sequence)>) }
+pub struct IndexerT { pub log: Ghost<Seq<Done>> }
+pub open spec fn keys_of(t: Seq<TombstoneInfo>) -> Seq<(u64, Sequence)> { t.map_values(|i: TombstoneInfo| (i.tombstone.hash, i.tombstone.sequence)) }
+/// stands for `tombstone_infos.iter().map(|info| (info.tombstone.hash, info.tombstone.sequence))` (iterator + closure)
+#[verifier::external_body]
+pub fn verif_tombstone_keys(t: &Vec<TombstoneInfo>) -> (r: Vec<(u64, Sequence)>) ensures r@ == keys_of(t@) { unimplemented!() }
+pub struct PieceRefT { }
+pub struct SenderT { }
+impl SenderT { #[verifier::external_body] pub fn send(self, v: ()) -> core::result::Result<(), ()> { unimplemented!() } }
+pub struct Instant { }
+pub struct RunnerT { pub indexer: IndexerT }
+impl IndexerT {
+    #[verifier::external_body]
+    pub fn remove_batch(&mut self, keys: Vec<(u64, Sequence)>) ensures final(self).log@ == old(self).log@.push(Done::RemovedTombstones(keys@)) { }
+}
+pub fn verif_ignore(keys: Vec<(u64, Sequence)>) { }
+impl RunnerT {
+    /// `drop(piece_refs)`: the write-queue (keeper) references of the batch are released
+    #[verifier::external_body]
+    pub fn verif_release_refs(&mut self, piece_refs: Vec<PieceRefT>) ensures final(self).indexer.log@ == old(self).indexer.log@.push(Done::ReleasedWriteQueueRefs(piece_refs@.len())) { }
+//@region foyer-storage/src/engine/block/flusher.rs :: impl~^impl<K, V, P> Runner<K, V, P>/fn handle_io_complete name=handle_io_complete whole=1 rules=drop-metrics subopt=@drop\(piece_refs\);@self.verif_release_refs(piece_refs);@ subopt=@(?s)tombstone_infos\s*\.iter\(\)\s*\.map\(\|info\| \(info\.tombstone\.hash, info\.tombstone\.sequence\)\),?@verif_tombstone_keys(&tombstone_infos)@
+//@head
+    fn handle_io_complete(&mut self, piece_refs: Vec<PieceRefT>, waiters: Vec<SenderT>, tombstone_infos: Vec<TombstoneInfo>, init: Instant)
+        ensures
+            final(self).indexer.log@ == old(self).indexer.log@
+                .push(Done::ReleasedWriteQueueRefs(piece_refs@.len()))
+                .push(Done::RemovedTombstones(keys_of(tombstone_infos@))), // @label after_the_io_task_refs_are_released_and_the_batch_tombstone_placeholders_removed_under_their_sequence
+//@loop 1 iter=it
+            invariant self.indexer.log@ == old(self).indexer.log@.push(Done::ReleasedWriteQueueRefs(piece_refs@.len())).push(Done::RemovedTombstones(keys_of(tombstone_infos@))), // @label refs_released_and_tombstone_placeholders_removed_before_the_waiters_are_answered
+//@end
+}
+
 } // verus!
